@@ -645,6 +645,7 @@ pub fn run(args: &crate::Args) {
     let mut stats = Counter::new();
     let mut by_test: std::collections::BTreeMap<String, String> = Default::default();
     let mut failed_progs: std::collections::BTreeMap<usize, String> = Default::default();
+    let _ = std::fs::remove_file(format!("{dir}/infra.txt"));
     let prog_src = |p: &Program| -> String {
         p.tpls.iter().map(|t| format!("--- p{}/{}{}.rs.{}\n{}", p.id, t.dir.iter().map(|d| format!("{d}/")).collect::<String>(), t.name, t.ext, String::from_utf8_lossy(&t.source(None)))).collect::<Vec<_>>().join("\n")
     };
@@ -677,6 +678,13 @@ pub fn run(args: &crate::Args) {
             _ => {}
         }
     }
+    // a failure that does not point into a source file is an infrastructure problem (rustc could not
+    // run, scratch space exhausted, …), not a property of the generated code
+    let infra: Vec<String> = failed_progs.iter().filter(|(_, w)| !w.contains(".rs:")).map(|(p, w)| format!("p{p}: {w}")).collect();
+    if !infra.is_empty() {
+        std::fs::write(format!("{dir}/infra.txt"), infra.join("\n")).unwrap();
+    }
+    failed_progs.retain(|_, w| w.contains(".rs:"));
     for (pidn, why) in &failed_progs {
         stats.hit("programs.not_compiling");
         writeln!(
